@@ -33,7 +33,7 @@ def c01_shards(tier):
     sh = []
     quick = tier == "quick"
     tables = [("ambig", T_AMBIG, "+TABZ"), ("impl", T_IMPL, "+DOX")] + [("apt%d" % i, t, "AP+TES") for i, t in enumerate(T_APT if not quick else T_APT[:2])]
-    caps = [(6, 0), (7, 2), (6, 1), (16, 0)] if not quick else [(6, 0), (6, 1), (16, 0)]
+    caps = [(6, 0), (7, 2), (6, 1), (16, 0)] if not quick else [(6, 0), (7, 2), (16, 0)]     # (capacity, layout): 0 separate, 1 shared even, 2 shared odd
     # quick: 2 lines, <=1 deviation, names <=3.  thorough: (2 lines, <=1 deviation, names <=4) and (1 line, <=2 deviations, names <=4)
     variants = [(2, 1, 3)] if quick else [(2, 1, 4), (1, 2, 4)]
     for (tn, t, alpha), (cap, shared), (lines, D, mn) in itertools.product(tables, caps, variants):
@@ -129,6 +129,9 @@ def c11_shards(tier, prop="C11", mon="C11"):
     for ring in ((1, 2) if quick else (1, 2, 3)):
         for shared in (0, 1):
             sh.append(duplex("duplex-r%d-sh%d" % (ring, shared), ring, shared, 3 if quick else 4, prop, mon))
+    # odd-sized shared buffer, and separate buffers of different sizes (smaller budget: the layouts differ only in capacities)
+    sh.append(duplex("duplex-r1-oddshared", 1, 2, 2 if quick else 3, prop, mon))
+    sh.append(duplex("duplex-r2-ubuf12", 2, 0, 2 if quick else 3, prop, mon, extra=dict(ubuf=12)))
     return sh
 
 
